@@ -214,11 +214,10 @@ class DirectCollocation(SamplingMethod):
         for k in range(self.N):
             dt = dts[k]
             self.add_coupling_constraints(stage, opti, k)
-            p = self.get_p_sys(stage,k,include_signals=False)
             for i in range(self.M):
                 for j in range(self.degree):
                     Pidot_j = mtimes(self.Xc[k][i],self.C[:,j])/ dt
-                    p_total = vertcat(p, signals_sampled[count_f_eval])
+                    p_total = self.get_p_sys(stage, k, signal_values=[e[count_f_eval] for e in v_sampled_store])
                     res = f(x=self.Xc[k][i][:, j+1], u=self.U[k], z=self.Zc[k][i][:,j], p=p_total, t=self.tr[k][i][j])
                     count_f_eval += 1
                     # Collocation constraints
